@@ -63,11 +63,11 @@ func main() {
 			pre := hx.Pick(rnd, []string{"/", "/p/", "/{x}/", "/p"})
 			for i := 0; i < nch && i < len(alpha); i++ {
 				p := pre + string(alpha[(i*7+si)%len(alpha)]) + hx.Pick(rnd, []string{"", "/a", "b", "/{y}"})
-				if _, err := f.Handle(methods[0], p, rt.Noop); err == nil {
+				if _, err := f.Handle(methods[0], p, rt.Rec); err == nil {
 					pats = append(pats, p)
 				}
 			}
-			if _, err := f.Handle(methods[0], pre+"{z}", rt.Noop); err == nil {
+			if _, err := f.Handle(methods[0], pre+"{z}", rt.Rec); err == nil {
 				pats = append(pats, pre+"{z}")
 			}
 			st.Count("set:fanout")
@@ -84,7 +84,7 @@ func main() {
 					// then label parameters, so the host walk itself backtracks
 					p = hx.Pick(rnd, []string{"a.b", "{h}.b", "a.{h}", "{g}.{h}", "a.b", "a.{h}"}) + p
 				}
-				if _, err := f.Handle(methods[0], p, rt.Noop); err == nil {
+				if _, err := f.Handle(methods[0], p, rt.Rec); err == nil {
 					pats = append(pats, p)
 				}
 			}
@@ -95,7 +95,7 @@ func main() {
 		for i := 0; i < npat; i++ {
 			p := rt.Pattern(rnd, setHostPct)
 			m := hx.Pick(rnd, methods)
-			if _, err := f.Handle(m, p, rt.Noop); err == nil {
+			if _, err := f.Handle(m, p, rt.Rec); err == nil {
 				pats = append(pats, p)
 			}
 		}
@@ -105,6 +105,28 @@ func main() {
 		dump := f.VerifDump()
 		def := fmt.Sprintf("t%d", si)
 		tree := rt.RootsTerm(dump, nil)
+		var served []servedReq
+		// write-transaction stream: a third of the sets are additionally observed THROUGH an open write
+		// transaction holding uncommitted inserts/deletes (Txn.Lookup / Txn.Reverse / Txn.Iter().Reverse must
+		// route on the transaction's own state)
+		var wtxn *fox.Txn
+		wdef, wtree := "", ""
+		if si%3 == 2 {
+			wtxn = f.Txn(true)
+			for k := 0; k < rnd.Range(1, 4); k++ {
+				if rnd.Pct(60) {
+					p := rt.Pattern(rnd, setHostPct)
+					if _, err := wtxn.Handle(methods[0], p, rt.Rec); err == nil {
+						pats = append(pats, p)
+					}
+				} else {
+					wtxn.Delete(methods[0], hx.Pick(rnd, pats))
+				}
+			}
+			wdef = fmt.Sprintf("w%d", si)
+			wtree = rt.RootsTerm(wtxn.VerifDump(), nil)
+			st.Count("set:write-txn")
+		}
 		for qi := 0; qi < nreq; qi++ {
 			var host, path string
 			base := hx.Pick(rnd, pats)
@@ -186,6 +208,18 @@ func main() {
 				def, hx.Bytes(method), hx.Bytes(host), hx.Bytes(shost), hx.Bytes(path), lo.Term(), rev, hx.Bool(inSpec), hx.Bool(others))
 			human := fmt.Sprintf("routes=%v %s host=%q path=%q => lookup=%+v reverse=(%v,%v) other-entry-points-agree=%v %s", dumpRoutes(f), method, host, path, lo, rr != nil, rtsr, others, odetail)
 			cs.AddWithDef(def, tree, term, human)
+			served = append(served, servedReq{method, host, shost, path, lo, inSpec})
+			if wtxn != nil && qi%2 == 0 {
+				wo, wr, wok, wdetail := rt.TxnEntryPoints(wtxn, method, host, path)
+				wrev := "None"
+				if wr.Found {
+					wrev = "(Some " + hx.Pair(hx.Bytes(wr.Pattern), hx.Bool(wr.Tsr)) + ")"
+				}
+				wterm := fmt.Sprintf("(%s, {| q_method := %s; q_rawhost := %s; q_host := %s; q_path := %s; q_lookup := %s; q_reverse := %s; q_spec := %s; q_others := %s |})",
+					wdef, hx.Bytes(method), hx.Bytes(host), hx.Bytes(shost), hx.Bytes(path), wo.Term(), wrev, hx.Bool(inSpec), hx.Bool(wok))
+				cs.AddWithDef(wdef, wtree, wterm, fmt.Sprintf("INSIDE A WRITE TRANSACTION with uncommitted writes: %s host=%q path=%q => Txn.Lookup=%+v Txn.Reverse=%+v agree=%v %s", method, host, path, wo, wr, wok, wdetail))
+				st.Count("kind:write-txn")
+			}
 			st.Count("kind:" + kind)
 			switch {
 			case !lo.Found:
@@ -206,6 +240,30 @@ func main() {
 				st.Samples = append(st.Samples, human)
 			}
 		}
+		if wtxn != nil {
+			wtxn.Abort()
+		}
+		// back-to-back ServeHTTP pass: the same requests again, through ServeHTTP ONLY, so that every
+		// request runs on the pooled context the previous one left behind (a stale tsr flag, stale
+		// params or a stale route in the recycled context shows here and nowhere else)
+		for i, q := range served {
+			got := rt.ServeObs(f, q.method, q.host, q.path)
+			gs := rt.FmtObs(got)
+			if got.Panic != "" {
+				gs = "panic"
+			}
+			if exp := rt.ExpectServed(q.lo, q.method, q.path); gs != exp && q.method != "OPTIONS" {
+				prev := "(first)"
+				if i > 0 {
+					prev = fmt.Sprintf("%s %q", served[i-1].method, served[i-1].path)
+				}
+				term := fmt.Sprintf("(%s, {| q_method := %s; q_rawhost := %s; q_host := %s; q_path := %s; q_lookup := %s; q_reverse := None; q_spec := %s; q_others := false |})",
+					def, hx.Bytes(q.method), hx.Bytes(q.host), hx.Bytes(q.shost), hx.Bytes(q.path), q.lo.Term(), hx.Bool(q.inSpec))
+				cs.AddWithDef(def, tree, term, fmt.Sprintf("BACK-TO-BACK ServeHTTP: routes=%v; after serving %s, %s host=%q path=%q: handler saw %s, Lookup says %s", dumpRoutes(f), prev, q.method, q.host, q.path, gs, exp))
+				st.Count("kind:serve-sequence-disagreement")
+			}
+		}
+		st.Count("pass:serve-sequence")
 	}
 	st.Evaluations = cs.Len()
 	st.DistinctNontrivial = nontrivial
@@ -215,6 +273,12 @@ func main() {
 	hx.Fatal(cs.Write(out, shards))
 	hx.Fatal(st.Write(out))
 	fmt.Printf("c01[%s]: %d cases\n", prop, cs.Len())
+}
+
+type servedReq struct {
+	method, host, shost, path string
+	lo                        rt.Obs
+	inSpec                    bool
 }
 
 func dumpRoutes(f *fox.Router) []string {
